@@ -89,6 +89,38 @@ def directed_histories():
                               lsb16=False, ops=[("C", 1), ("C", 2), ("C", 3), ("U", 1, 0, 24, 0), ("U", 2, 0, 24, 1), ("U", 3, 0, 24, 2)],
                               tokens={}, lens=None, once=True,
                               tiers=("quick", "thorough") if (fs == 48000 and ch == 2 and lsb in (16, 12)) or q % 8 == 0 else ("thorough",)))
+    # the soft clipper's memory across a reset: a loud low-frequency packet, reset, the next packet (which goes on in the same half
+    # wave), against a fresh decoder given that packet; again and again along the stream.  The harness's reference clipper starts
+    # from zero after a reset, as a new decoder's does.
+    for k in range(6):
+        for (fmts, gain) in (([0, 0], 0), ([0, 0], 768), ([2, 1], 0)):
+            ops = [("C", 1)]
+            for p in range(0, 14):
+                ops += [("V", 1, p, 1, 0), ("R", 1), ("V", 1, p + 1, 1, 0), ("C", 2), ("V", 2, p + 1, 1, 0), ("X", 2), ("R", 1)]
+            D.append(dict(kind="d", fs=[48000, 48000, 16000, 48000, 48000, 24000][k], ch=[1, 2, 1, 1, 2, 1][k], app=0,
+                          pre=[(4034, gain)] if gain else [], sig=19, fd=8, lsb16=False, fmts=fmts * 20, stream=("lf", k), ops=ops, tokens={},
+                          lens=None, modes=[0, 1, 2], once=True,
+                          tiers=("quick", "thorough") if (fmts[0] == 0 and (k + (gain > 0)) % 2 == 0) else ("thorough",)))
+    for (kind, lay, tag) in (("D", 0, "lfE0"), ("D", 3, "lfE3"), ("P", 5, "lfE3")):
+        ops = [("C", 1)]
+        for p in range(0, 10):
+            ops += [("V", 1, p, 1, 0), ("R", 1), ("V", 1, p + 1, 1, 0), ("C", 2), ("V", 2, p + 1, 1, 0), ("X", 2), ("R", 1)]
+        D.append(dict(kind=kind, fs=48000, ch=lay, app=0, pre=[], sig=19, fd=8, lsb16=False, fmts=[0] * 24, stream=(tag, 0), ops=ops,
+                      tokens={}, lens=None, modes=[0, 1, 2], once=True, tiers=("quick", "thorough") if kind == "D" and lay == 0 else ("thorough",)))
+    # a fixed expert frame duration with more samples supplied per call than that duration (the look-ahead usage), through the three
+    # entry points, analysis running: every duration x {2x, 4x, the next legal size}
+    durs = [1, 2, 4, 8, 16, 24, 32, 40, 48]
+    q = 0
+    for di, dur in enumerate(durs):
+        for sup in (2 * dur, 4 * dur, durs[di + 1] if di + 1 < len(durs) else 60):
+            q += 1
+            fs, ch = [(48000, 1), (16000, 2), (48000, 2), (24000, 1)][q % 4]
+            ops = [("C", 1), ("C", 2), ("C", 3)]
+            for v in range(3):
+                ops.append(("V", v + 1, 0, 10 if dur <= 16 else 5, v, min(sup, 96)))
+            D.append(dict(kind="e", fs=fs, ch=ch, app=[2049, 2048, 2051][q % 3], pre=[(4036, 16), (4010, 10), (4040, 5001 + di), (4002, 32000 * ch)],
+                          sig=[1, 2, 3, 6, 10][q % 5], fd=8, lsb16=False, ops=ops, tokens={}, lens=None, once=True,
+                          tiers=("quick", "thorough") if (dur in (2, 4, 8) and sup == 2 * dur) or q % 9 == 0 else ("thorough",)))
     # finding F14 on every run: projection decoders with 16-bit output, demixed sum beyond the 16-bit range while every stream stays
     # within +-1 (caller matrix of 0.75s on the half-scale music stream); the float and 24-bit twins of the same history are not affected
     D.append(dict(kind="P", fs=48000, ch=5, app=0, pre=[], sig=2, fd=8, lsb16=False, fmts=[0, 2, 1], stream=("E3", 1),
@@ -134,10 +166,21 @@ def packet_streams(rng):
     add("R", 48000, 2, 2049, 32000, 8, 2, 4, 30, "mf")        # two 20 ms frames
     add("R", 16000, 1, 2048, 14000, 8, 2, 4, 30, "mf")        # two 20 ms speech-layer frames
     idx["e"] += idx["mf"]
+    # loud low-frequency material: frames end inside half waves the soft clipper is working on (its memory is then non-zero)
+    add("e", 48000, 1, 2049, 64000, 8, 0, 19, 40, "lf")
+    add("e", 48000, 2, 2049, 96000, 8, 0, 18, 40, "lf")
+    add("e", 16000, 1, 2048, 40000, 8, 0, 19, 40, "lf")
+    add("e", 48000, 1, 2051, 64000, 4, 0, 19, 40, "lf")
+    add("e", 48000, 2, 2051, 128000, 16, 0, 19, 24, "lf")
+    add("e", 24000, 1, 2049, 64000, 8, 0, 18, 40, "lf")
+    idx["e"] += idx["lf"]
     for lay in (0, 1, 2, 3):
         add("E", 48000, lay, 2049, 64000 * [2, 3, 6, 4][lay], 8, 0, 4, 40, "E%d" % lay)
         add("E", 48000, lay, 2049, 24000 * [2, 3, 6, 4][lay], 8, 0, 2, 40, "E%d" % lay)
         add("E", 16000, lay, 2048, 16000 * [2, 3, 6, 4][lay], 8, 1, 1, 40, "E%d" % lay)
+    add("E", 48000, 0, 2049, 128000, 8, 0, 19, 40, "lfE0")
+    add("E", 48000, 3, 2049, 256000, 8, 0, 19, 40, "lfE3")
+    idx["E0"] += idx["lfE0"]; idx["E3"] += idx["lfE3"]
     add("J", 48000, 4, 2049, 256000, 8, 0, 4, 40, "J")
     add("J", 48000, 4, 2049, 128000, 8, 0, 2, 40, "J")
     add("J", 48000, 4, 2049, 96000, 4, 0, 1, 40, "J")
@@ -290,6 +333,12 @@ def instantiate(ops, rng, hid, pid, psidx, pinned=None):
             else:
                 A.append("D %d %d %d %d %d" % (o, sid, pos[o], n, perm[v % 3]))
             pos[o] += n
+        elif t == "V":          # (directed histories only) a run at an explicit position, optionally with its own buffer duration
+            o, k0, n, v = op[1] - 1, op[2], op[3], op[4]
+            if enc:
+                A.append("E %d %d %d %d %d %d %d" % (o, perm[v % 3], sig, k0, n, op[5] if len(op) > 5 else fd, maxb))
+            else:
+                A.append("D %d %d %d %d %d" % (o, sid, k0, n, perm[v % 3]))
         elif t == "Y":
             s, d = op[1] - 1, op[2] - 1
             A.append("Y %d %d" % (s, d))
